@@ -10,37 +10,44 @@ Import ListNotations.
 Open Scope list_scope.
 
 (* today's source has exactly the reference decorator table (verbs, handlers, decorator stacks in
-   order, delegations), the reset-exempt verbs are exactly the three transfer verbs, unknown verbs are
-   answered 502, a False handler result ends the session, PathIOError is turned into 451 + continue *)
+   order, delegations); the dispatcher clears the restart offset after EVERY supported verb (no verb is
+   exempt) and hands the pending offset to exactly the three transfer verbs; unknown verbs are answered
+   502; a False handler result ends the session; PathIOError is turned into 451 + continue and a
+   cancelled (aborted) transfer task into 426, 226 + continue *)
 Theorem C05_table_is_reference :
   translator_ok = true /\ table_eqb gen_table ref_table = true /\
   table_ok ref_table = true /\ login_entries_ok ref_table = true /\
-  d_reset_exempt dispatcher = ["retr"; "stor"; "appe"]%string /\
+  d_reset_exempt dispatcher = []%string /\
+  d_offset_handed dispatcher = ["retr"; "stor"; "appe"]%string /\
   d_unknown_code dispatcher = "502"%string /\ d_false_ends dispatcher = true /\
-  d_task_except dispatcher = [("errors.PathIOError", ["response:451"; "continue"])]%string /\
+  d_task_except dispatcher = [("errors.PathIOError", ["response:451"; "continue"]);
+                              ("asyncio.CancelledError", ["response:426"; "response:226"; "continue"])]%string /\
   pathperm_first_flag_only = true /\
   (* every handler body still has the footprint (reply codes, return values, backend calls, connection
-     attributes set/deleted) and every worker the shape the hand-written model was transcribed from *)
+     attributes set/deleted) and every worker the shape the hand-written model was transcribed from
+     (stream context entered before the file; the worker reads the handed-over offset) *)
   footprints_match = true /\ workers_match = true.
 Proof. vm_compute. repeat split. Qed.
 Print Assumptions C05_table_is_reference.
 
 (* exactly one final reply per command (transfer commands: one 150 mark, then exactly one completion
-   reply) and the server ends the session itself only after QUIT (221) — or after EPSV <arg> (522),
-   which is the refuted part below — for EVERY world with a well-formed login state *)
-Theorem C05_reply_shape_partial : forall users w e,
+   reply) and the server ends the session itself only after QUIT (221), for EVERY world with a
+   well-formed login state, every verb and EVERY argument (REST arguments included: the handler's
+   isascii()-and-isdigit() guard admits only strings int() accepts, rest_never_crashes) *)
+Theorem C05_reply_shape : forall users w e,
   wf_sess users (w_s w) -> s_ended (w_s w) = false ->
   text_eqb (e_verb e) V_DATACONN = false ->
-  (verb_handler ref_table (e_verb e) = Some "rest"%string -> ~ rest_crash (e_arg e)) ->
   shape_ok (snd (step users ref_table w e)) = true /\
   (s_ended (w_s (fst (step users ref_table w e))) = true ->
-     (verb_handler ref_table (e_verb e) = Some "quit"%string /\ o_codes (snd (step users ref_table w e)) = [t_of "221"])
-     \/ (verb_handler ref_table (e_verb e) = Some "epsv"%string /\ e_arg e <> [] /\
-         o_codes (snd (step users ref_table w e)) = [t_of "522"])).
+     verb_handler ref_table (e_verb e) = Some "quit"%string /\ o_codes (snd (step users ref_table w e)) = [t_of "221"]).
 Proof.
   intros users. apply step_reply_shape. exact (proj1 (proj2 (proj2 C05_table_is_reference))).
 Qed.
-Print Assumptions C05_reply_shape_partial.
+Print Assumptions C05_reply_shape.
+
+Theorem C05_rest_never_crashes : forall arg, ~ rest_crash arg.
+Proof. exact rest_never_crashes. Qed.
+Print Assumptions C05_rest_never_crashes.
 
 (* well-formedness holds in every reachable state (so the hypothesis above is not a restriction) *)
 Theorem C05_wf_reachable : forall users es,
@@ -62,18 +69,27 @@ Theorem C05_out_of_sequence_503 : forall users t w e h fields fc ds dl f,
   verb_handler t (e_verb e) = Some h ->
   handler_of t h = Some (DConn fields false fc :: ds, dl) ->
   In f fields -> has_field (w_s w) f = false ->
-  let w0 := if is_transfer (e_verb e) then w else set_sess w (set_rest (w_s w) 0) in
-  step users t w e = (w0, mk_out [t_of fc]).
+  step users t w e = (set_sess w (set_rest (w_s w) 0%Z), mk_out [t_of fc]).
 Proof. exact out_of_sequence. Qed.
 Print Assumptions C05_out_of_sequence_503.
 
-Theorem C05_rest_cleared_by_non_transfer : forall users t w e h,
+(* "the restart offset applies only to the immediately following transfer": after ANY supported command
+   other than REST itself -- a transfer that used it, a transfer that was refused (503/550/425), or any
+   other command -- the pending offset is 0 *)
+Theorem C05_rest_scopes_one_command : forall users t w e h,
   s_ended (w_s w) = false -> text_eqb (e_verb e) V_DATACONN = false ->
   verb_handler t (e_verb e) = Some h -> String.eqb h "rest" = false ->
-  is_transfer (e_verb e) = false ->
   s_rest (w_s (fst (step users t w e))) = 0%Z.
-Proof. exact rest_cleared_by_non_transfer. Qed.
-Print Assumptions C05_rest_cleared_by_non_transfer.
+Proof. exact rest_cleared_by_every_command. Qed.
+Print Assumptions C05_rest_scopes_one_command.
+
+(* ... while the transfer command itself is served with the offset it found *)
+Theorem C05_transfer_sees_offset : forall users t w e h,
+  s_ended (w_s w) = false -> text_eqb (e_verb e) V_DATACONN = false ->
+  verb_handler t (e_verb e) = Some h -> is_transfer (e_verb e) = true ->
+  snd (step users t w e) = snd (fst (handler users t 3 h (e_arg e) (e_data e) false w)).
+Proof. exact transfer_sees_offset. Qed.
+Print Assumptions C05_transfer_sees_offset.
 
 Theorem C05_rnto_consumes_pending_rename : forall users self arg d appe w,
   s_rnfr (w_s (res_world (body users self "rnto" arg d appe w))) = None.
@@ -86,8 +102,9 @@ Theorem C05_relogin_resets_cwd : forall users self arg d appe w i u,
 Proof. exact user_resets_cwd. Qed.
 Print Assumptions C05_relogin_resets_cwd.
 
-(* ---------------- refuted parts of the full statement: witnesses on the faithful model
-   (each is replayed on the real server by the harness and listed in known_findings.json) *)
+(* ---------------- the three histories that were refutation witnesses before the repairs of F09, F10
+   and F14 (fix: commits in /repo, known_findings.json "fixed"): concrete, non-vacuous instances of the
+   theorems above; the harness replays each on the real server on every run as an ordinary corpus case *)
 Definition U1 : list user :=
   [{| u_login := Some (t_of "u"); u_password := Some (t_of "pw"); u_home := []; u_perms := [] |}].
 Definition W1 : world :=
@@ -95,30 +112,26 @@ Definition W1 : world :=
 Definition ev (v a : string) : event := {| e_verb := t_of v; e_arg := t_of a; e_data := DNone |}.
 Definition dataconn : event := {| e_verb := V_DATACONN; e_arg := []; e_data := DNone |}.
 
-(* F09: "a malformed argument gets a 5xx and the session continues" fails for REST + a digit that
-   int() rejects (superscript two, code point 178): no reply at all and the session is over *)
-Theorem C05_bad_argument_5xx_refuted :
+(* REST + superscript two (code point 178; str.isdigit() is true, int() raises): 501, session continues *)
+Example C05_rest_nondecimal_digit_is_501 :
   let es := [ev "user" "u"; ev "pass" "pw"; {| e_verb := t_of "rest"; e_arg := [178%Z]; e_data := DNone |}] in
   let '(w, outs) := run U1 ref_table W1 es in
-  s_ended (w_s w) = true /\ map (fun x => o_codes (fst x)) outs = [[t_of "331"]; [t_of "230"]; []].
+  s_ended (w_s w) = false /\ map (fun x => o_codes (fst x)) outs = [[t_of "331"]; [t_of "230"]; [t_of "501"]].
 Proof. vm_compute. split; reflexivity. Qed.
-Print Assumptions C05_bad_argument_5xx_refuted.
 
-(* F10: "the server ends a session only after QUIT or a reply that announces it" fails for EPSV <arg> *)
-Theorem C05_session_ends_only_when_announced_refuted :
-  let es := [ev "user" "u"; ev "pass" "pw"; ev "epsv" "1"] in
+(* EPSV <arg>: 522 and the session continues *)
+Example C05_epsv_arg_keeps_session :
+  let es := [ev "user" "u"; ev "pass" "pw"; ev "epsv" "1"; ev "pwd" ""] in
   let '(w, outs) := run U1 ref_table W1 es in
-  s_ended (w_s w) = true /\ map (fun x => o_codes (fst x)) outs = [[t_of "331"]; [t_of "230"]; [t_of "522"]].
+  s_ended (w_s w) = false /\
+  map (fun x => o_codes (fst x)) outs = [[t_of "331"]; [t_of "230"]; [t_of "522"]; [t_of "257"]].
 Proof. vm_compute. split; reflexivity. Qed.
-Print Assumptions C05_session_ends_only_when_announced_refuted.
 
-(* F14: "the restart offset applies only to the immediately following transfer" fails: the second
-   RETR is served from offset 4 again *)
-Theorem C05_rest_scopes_one_transfer_refuted :
+(* REST 4; RETR g; RETR g: the first transfer starts at 4, the second at 0 *)
+Example C05_rest_applies_to_one_transfer :
   let es := [ev "user" "u"; ev "pass" "pw"; ev "pasv" ""; dataconn; ev "rest" "4"; ev "retr" "g";
              dataconn; ev "retr" "g"] in
   let '(w, outs) := run U1 ref_table W1 es in
   map (fun x => o_bytes (fst x)) (skipn 5 outs)
-  = [Some [52;53;54;55;56;57]%Z; None; Some [52;53;54;55;56;57]%Z].
+  = [Some [52;53;54;55;56;57]%Z; None; Some [48;49;50;51;52;53;54;55;56;57]%Z].
 Proof. vm_compute. reflexivity. Qed.
-Print Assumptions C05_rest_scopes_one_transfer_refuted.
